@@ -122,7 +122,7 @@ pub struct Sc {
 const QUICK_RUNS: u64 = 4096;
 const THOROUGH_RUNS: u64 = 24576;
 
-pub fn runs_for(tier: Tier) -> u64 {
+pub fn runs_for(_prop: &str, tier: Tier) -> u64 {
     match tier {
         Tier::Quick => QUICK_RUNS,
         Tier::Thorough => THOROUGH_RUNS,
@@ -254,7 +254,7 @@ fn plan_enumerated(bytes_len: usize, k: u64) -> IoPlan {
     }
 }
 
-pub fn generate(tier: Tier, seed: u64, run: u64) -> Sc {
+pub fn generate(_prop: &str, tier: Tier, seed: u64, run: u64) -> Sc {
     let mut rng = Rng::new(mix(seed, &["C09", "stream"], run));
     let mut knobs = rng.split("knobs");
     let mut wl = rng.split("workload");
